@@ -7,7 +7,7 @@
   specification by the correspondence streams (see DESIGN.md §8 C01, "partial").
 -/
 import CSD.Lemmas.PFCMeta
-import CSD.Lemmas.HashBuild
+import CSD.Lemmas.HashBlocks
 
 namespace CSD.Props.C01
 open CSD CSD.PFC
@@ -89,6 +89,29 @@ theorem hash_table_size_prime (tsize0 : Nat) (S : List Str)
     (hacc : Hash.accepted (Hash.build tsize0 S).tsize = true) :
     (Hash.build tsize0 S).tsize = 1 ∨ Hash.IsPrime (Hash.build tsize0 S).tsize :=
   Hash.accepted_prime_or_one hacc
+
+/-- HASHRPDACBlocks, member → ID → member: the samples route a member to the part built from its
+block, whose local ID is shifted by the number of strings in the earlier blocks; the result is in
+`[1,n]` and `extract` of it (routed by the starting indexes) gives the string back. For every cut
+size and every per-block table size that holds its block. -/
+theorem blocks_locate_then_extract (cutSize : Nat) (tsizeOf : Nat → Nat) (S : List Str)
+    (ok : Hash.PartsOK cutSize tsizeOf S) (s : Str) (hs : s ∈ S) :
+    1 ≤ Hash.locateBlocks (Hash.buildBlocks cutSize tsizeOf S) s ∧
+    Hash.locateBlocks (Hash.buildBlocks cutSize tsizeOf S) s ≤ S.length ∧
+    Hash.extractBlocks (Hash.buildBlocks cutSize tsizeOf S)
+      (Hash.locateBlocks (Hash.buildBlocks cutSize tsizeOf S) s) = some s :=
+  Hash.blocks_locate_member ok s hs
+
+/-- HASHRPDACBlocks, ID → member → ID. -/
+theorem blocks_extract_then_locate (cutSize : Nat) (tsizeOf : Nat → Nat) (S : List Str)
+    (ok : Hash.PartsOK cutSize tsizeOf S) (i : Nat) (h1 : 1 ≤ i) (h2 : i ≤ S.length) :
+    ∃ s, s ∈ S ∧ Hash.extractBlocks (Hash.buildBlocks cutSize tsizeOf S) i = some s ∧
+      Hash.locateBlocks (Hash.buildBlocks cutSize tsizeOf S) s = i :=
+  Hash.blocks_extract_then_locate ok i h1 h2
+
+/-- Non-vacuity of the Blocks hypotheses: four sorted strings cut into blocks of about 4 bytes. -/
+example : Hash.PartsOK 4 (fun n => n + 1) [[0x61], [0x61, 0x62], [0x62], [0x63, 0x63]] :=
+  ⟨sortedLt_of_sortedStrict _ (by decide), by decide +kernel⟩
 
 /-- Non-vacuity of the hash hypotheses: three strings in a table requested for 3 (size 3 is accepted). -/
 example : Hash.accepted (Hash.build 3 [[0x61], [0x62], [0x63]]).tsize = true ∧
